@@ -375,7 +375,7 @@ theorem joined_is_settled {n mx : Nat} {s : St} (hr : Reachable n mx s) (th : BT
     (hj : th.joined = true) : (th.pc = .done ∨ th.pc = .new) ∧ s.ctl.pc ≠ .boot := by
   have hT := (reachable_inv hr).2 th hth
   unfold TInv at hT
-  exact hT.2.2.2.2.2.2.2.2.2.2.2.2.2.2 hj
+  exact hT.2.2.2.2.2.2.2.2.2.2.2.2.2.2.1 hj
 
 /-- **An interrupt during start-up.** With only the first thread started, an interrupt leaves the
 start-up section; the epilogue shuts down, joins the started thread once it has exited, finds the
